@@ -43,6 +43,7 @@ type Span struct {
 	FromMS  int `json:"from"`
 	ToMS    int `json:"to"`
 	DelayMS int `json:"delay,omitempty"` // 0 = silent, >0 = all its traffic delayed by that much
+	Track   int `json:"track,omitempty"` // 7-validator runs have two independent tracks of faulty spans (f=2)
 }
 
 // NetTx is a client transaction.
@@ -75,6 +76,9 @@ const blockTimeMS = 1000
 
 func drawNet(rt *rapid.T, p *Plan, prop, tier string) *Plan {
 	np := &NetPlan{Validators: 4}
+	if rapid.IntRange(0, 4).Draw(rt, "seven") == 4 {
+		np.Validators = 7
+	}
 	np.Observers = rapid.IntRange(0, 1).Draw(rt, "observers")
 	np.Sync = rapid.IntRange(0, 2).Draw(rt, "sync") == 0
 	if prop == "C07" || prop == "C17" {
@@ -102,6 +106,21 @@ func drawNet(rt *rapid.T, p *Plan, prop, tier string) *Plan {
 			}
 			np.Spans = append(np.Spans, s)
 			t = to
+		}
+		if np.Validators == 7 {
+			// f=2: a second, independent track of faulty spans on other validators
+			t = 0
+			ns2 := rapid.IntRange(0, 3).Draw(rt, "nspans2")
+			for i := 0; i < ns2 && t < np.DurationMS; i++ {
+				from := t + rapid.IntRange(0, 4000).Draw(rt, "gap2")
+				to := from + rapid.IntRange(200, 6000).Draw(rt, "len2")
+				s := Span{Node: rapid.IntRange(0, np.Validators-1).Draw(rt, "snode2"), FromMS: from, ToMS: to, Track: 1}
+				if rapid.Bool().Draw(rt, "late2") {
+					s.DelayMS = rapid.IntRange(300, 4000).Draw(rt, "late_ms2")
+				}
+				np.Spans = append(np.Spans, s)
+				t = to
+			}
 		}
 	}
 	if prop == "C17" {
@@ -591,6 +610,7 @@ func (r *run) runNet() {
 	defer os.RemoveAll(tmp)
 	s.start = time.Now()
 
+	r.out.Probes[fmt.Sprintf("validators_%d", np.Validators)]++
 	total := np.Validators + np.Observers
 	for i := 0; i < total; i++ {
 		l := Local{Backend: simdisk.Memory, VerifyTx: true}
@@ -732,6 +752,16 @@ func (r *run) newNetNode(name string, l Local) *Node {
 	n, err := newNodeWithHook(r.t, name, r.plan.Proto, l, func(c *config.Blockchain) {
 		c.TimePerBlock = blockTimeMS * time.Millisecond
 		c.Genesis.TimePerBlock = blockTimeMS * time.Millisecond
+		if r.plan.Net != nil && r.plan.Net.Validators == 7 {
+			var sc []string
+			for _, pk := range extraValidatorKeys() {
+				sc = append(sc, pk.PublicKey().StringCompressed())
+			}
+			c.StandbyCommittee = sc
+			c.ValidatorsCount = 7
+			c.CommitteeHistory = nil
+			c.ValidatorsHistory = nil
+		}
 		if r.plan.Net != nil && r.plan.Net.MaxTxPB > 0 {
 			c.MaxTransactionsPerBlock = uint16(r.plan.Net.MaxTxPB)
 		}
